@@ -59,7 +59,12 @@ def get_assertion_protected_variables(test_case: tc.TestCase) -> set[str]:
     _add_backward_dependencies(test_case, protected)
     while _add_state_dependencies(test_case, protected):
         _add_backward_dependencies(test_case, protected)
-    return protected
+    # The names a statement uses also comprise, e.g., the alias of the module under test.
+    return protected & {
+        statement.bound_variable
+        for statement in test_case.statements()
+        if statement.bound_variable is not None
+    }
 
 
 def _directly_asserted_variables(test_case: tc.TestCase) -> set[str]:
@@ -108,8 +113,9 @@ def _is_protected(statement: tc.Statement, protected: set[str]) -> bool:
     if statement.bound_variable in protected or _carries_reference_assertion(statement):
         return True
     # A statement that binds nothing is only executed for its effect on what it uses.
-    used = statement.used_variables()
-    return statement.bound_variable is None and bool(used) and used <= protected
+    return statement.bound_variable is None and not protected.isdisjoint(
+        statement.used_variables()
+    )
 
 
 def _add_backward_dependencies(test_case: tc.TestCase, protected: set[str]) -> None:
@@ -158,8 +164,13 @@ def _add_state_dependencies(test_case: tc.TestCase, protected: set[str]) -> bool
     added = False
     for statement in statements:
         names = set(statement.used_variables())
+        # Only variables of the test case count: the names a statement uses also
+        # comprise, e.g., the alias of the module under test.
         if not any(
-            name in protected and bound_types.get(name) not in _IMMUTABLE_TYPES for name in names
+            name in protected
+            and name in bound_types
+            and bound_types[name] not in _IMMUTABLE_TYPES
+            for name in names
         ):
             continue
         if statement.bound_variable is not None:
